@@ -561,7 +561,11 @@ class SArray(SArrayBase):
             if kv == "b":
                 return _num(v)
             if kv == "f":
-                raise Unsupported("assigning a float into an int array")
+                # numpy stores the value truncated toward zero (no error, no warning)
+                if isinstance(v, Sym):
+                    zv = core._z(v)
+                    return SNum(z3.If(zv >= 0, z3.ToInt(zv), -z3.ToInt(-zv)))
+                return int(v)
             return v
         if k == "b":
             if kind_of_scalar(v) != "b":
